@@ -113,6 +113,13 @@ def main : IO Unit := do
     for i in [(-1 : Int), 0, 1, 3, 4] do
       for v in [(4 : Int), 5, 7, 9] do
         IO.println (line s!"pick {showInts xs} {i} {v}" ((pick xs i v).map toString))
+  for m in [(0 : Int), 1, 4, 8] do
+    for vals in ([#[], #[5], #[5, 6, 7], #[1, 2, 3, 4], #[9, 9, 9, 9, 9, 9, 9, 9]] : List (Array Int)) do
+      for seed in ([0, 5, 0 - 3] : List UInt64) do
+        for step in ([0, 1, 3] : List UInt64) do
+          for want in [(3 : Int), 9] do
+            IO.println (line s!"ringScript {m} {showInts vals} {seed} {step} {want}"
+              ((ringScript F m vals seed step want).map fun (a, b, c) => s!"{a} {b} {c}"))
 
 #eval main
 end Selftest
